@@ -1,6 +1,6 @@
 (* Proofs about coq/Model/ClaimTerms.v (property C10). *)
 From stdpp Require Import gmap.
-From Coq Require Import ZArith List Bool Lia.
+From Coq Require Import ZArith List Bool Lia Sorting.Sorted.
 From VF Require Import Gen.Consts Gen.VerifregConsts Base.Corr Base.MapSum Model.Verifreg
   Proofs.Verifreg_lemmas Model.ClaimTerms.
 Import ListNotations.
@@ -225,6 +225,31 @@ Proof.
   - injection H as <- _ _. exact S.
 Qed.
 
+(* ---------- the validator as it was before fix 081fc6c, kept as a proof device: the repaired
+   validator accepts only messages on which the old one computes the same spaces ---------- *)
+Fixpoint acc_sclaims0 (cl : gmap (Z * Z) claim) (provider new_exp : Z) (scs : list sclaim)
+    (m : gmap Z (Z * Z)) : R (gmap Z (Z * Z)) :=
+  match scs with
+  | [] => Ok m
+  | sc :: rest =>
+      match lookup_claims cl provider (sc_maintain sc ++ sc_drop sc) with
+      | None => Err ILLEGAL_ARGUMENT
+      | Some cs =>
+          let? m1 := acc_claims provider new_exp (sc_sector sc) cs O (length (sc_maintain sc)) m in
+          acc_sclaims0 cl provider new_exp rest m1
+      end
+  end.
+
+Fixpoint validate_decls0 (cl : gmap (Z * Z) claim) (provider : Z) (ds : list edecl)
+    (m : gmap Z (Z * Z)) : R (gmap Z (Z * Z)) :=
+  match ds with
+  | [] => Ok m
+  | d :: rest =>
+      if WPOST_PERIOD_DEADLINES <=? ed_deadline d then Err ILLEGAL_ARGUMENT else
+      let? m1 := acc_sclaims0 cl provider (ed_new_exp d) (ed_claims d) m in
+      validate_decls0 cl provider rest m1
+  end.
+
 (* ---------- validate_extension_declarations ---------- *)
 Lemma lookup_claims_spec cl p ids cs :
   lookup_claims cl p ids = Some cs -> Forall2 (fun id c => cl !! (p, id) = Some c) ids cs.
@@ -325,14 +350,14 @@ Proof.
 Qed.
 
 Lemma acc_sclaims_ok cl p x U scs m m' :
-  acc_sclaims cl p x scs m = Ok m' ->
+  acc_sclaims0 cl p x scs m = Ok m' ->
   NoDup (map sc_sector scs) ->
   (forall n, In n (map sc_sector scs) -> m !! n = None) ->
   (forall sc, In sc scs -> In (x, sc) U) ->
   spaces_ok cl p U m ->
   spaces_ok cl p U m' /\ (forall n, m' !! n <> None -> m !! n <> None \/ In n (map sc_sector scs)).
 Proof.
-  revert m. induction scs as [|sc rest IH]; intros m H Hnd Hfresh HU Hok; cbn [acc_sclaims] in H.
+  revert m. induction scs as [|sc rest IH]; intros m H Hnd Hfresh HU Hok; cbn [acc_sclaims0] in H.
   - injection H as <-. split; [exact Hok|]. intros n Hn. left. exact Hn.
   - destruct (lookup_claims cl p (sc_maintain sc ++ sc_drop sc)) as [cs|] eqn:El; [|discriminate].
     apply rbind_ok in H as (m1 & Hm1 & H).
@@ -370,13 +395,13 @@ Definition universe (ds : list edecl) : list (Z * sclaim) :=
   flat_map (fun d => map (pair (ed_new_exp d)) (ed_claims d)) ds.
 
 Lemma validate_decls_ok cl p U ds m m' :
-  validate_decls cl p ds m = Ok m' ->
+  validate_decls0 cl p ds m = Ok m' ->
   NoDup (map sc_sector (flat_map ed_claims ds)) ->
   (forall n, In n (map sc_sector (flat_map ed_claims ds)) -> m !! n = None) ->
   (forall x sc, In (x, sc) (universe ds) -> In (x, sc) U) ->
   spaces_ok cl p U m -> spaces_ok cl p U m'.
 Proof.
-  revert m. induction ds as [|d rest IH]; intros m H Hnd Hfresh HU Hok; cbn [validate_decls] in H.
+  revert m. induction ds as [|d rest IH]; intros m H Hnd Hfresh HU Hok; cbn [validate_decls0] in H.
   - injection H as <-. exact Hok.
   - destruct (_ <=? ed_deadline d); [discriminate|].
     apply rbind_ok in H as (m1 & Hm1 & H).
@@ -513,6 +538,108 @@ Proof.
   apply NoDup_app_parts in Hnd. tauto.
 Qed.
 
+(* ---------- the repaired validator (fix 081fc6c) accepts only well-formed messages, on which it
+   computes what the old validator computed ---------- *)
+Lemma has_dupZ_false l : has_dupZ l = false -> NoDup l.
+Proof.
+  induction l as [|x r IH]; cbn; intros H; constructor.
+  - apply orb_false_iff in H as [H _]. apply mem_not_In in H. exact H.
+  - apply orb_false_iff in H as [_ H]. apply IH. exact H.
+Qed.
+
+Lemma insert_sorted_sorted x l : Sorted Z.le l -> Sorted Z.le (insert_sortedZ x l).
+Proof.
+  induction 1 as [|y r Hs IH Hd]; cbn; [repeat constructor|].
+  destruct (x <=? y) eqn:E.
+  - apply Z.leb_le in E. constructor; [constructor; assumption|constructor; exact E].
+  - apply Z.leb_gt in E. constructor; [exact IH|].
+    destruct r as [|z r']; cbn.
+    + constructor. lia.
+    + destruct (x <=? z); constructor; [lia|inversion Hd; assumption].
+Qed.
+
+Lemma sortZ_sorted l : Sorted Z.le (sortZ l).
+Proof. induction l; cbn; [constructor|apply insert_sorted_sorted; assumption]. Qed.
+
+Lemma dedup_sorted_spec l :
+  Sorted Z.le l ->
+  Sorted Z.lt (dedup_sorted l) /\ (forall y r, l = y :: r -> exists t, dedup_sorted l = y :: t).
+Proof.
+  induction l as [|y r IH]; intros Hs.
+  - split; [constructor|discriminate].
+  - inversion Hs as [|? ? Hs' Hd]; subst. destruct (IH Hs') as [IH1 IH2].
+    destruct r as [|z r'].
+    + split; [repeat constructor|]. intros y0 r0 [= <- <-]. exists []. reflexivity.
+    + destruct (IH2 z r' eq_refl) as (t & Ht). inversion Hd as [|? ? Hyz]; subst.
+      change (dedup_sorted (y :: z :: r')) with (if y =? z then dedup_sorted (z :: r') else y :: dedup_sorted (z :: r')).
+      destruct (y =? z) eqn:E.
+      * apply Z.eqb_eq in E. subst z. split; [exact IH1|]. intros y0 r0 [= <- <-]. exists t. exact Ht.
+      * apply Z.eqb_neq in E. split.
+        -- constructor; [exact IH1|]. rewrite Ht. constructor. lia.
+        -- intros y0 r0 [= <- <-]. eexists. reflexivity.
+Qed.
+
+Lemma Sorted_lt_NoDup l : Sorted Z.lt l -> NoDup l.
+Proof.
+  intros H. apply Sorted_StronglySorted in H; [|intros a b c; lia].
+  induction H as [|x r Hs IH Hall]; constructor; [|exact IH].
+  intros Hin. rewrite Forall_forall in Hall. specialize (Hall x Hin). lia.
+Qed.
+
+Lemma decl_sectors_NoDup d : NoDup (decl_sectors d).
+Proof. apply Sorted_lt_NoDup, dedup_sorted_spec, sortZ_sorted. Qed.
+
+Lemma acc_sclaims_legacy cl p x scs m m' :
+  acc_sclaims cl p x scs m = Ok m' ->
+  acc_sclaims0 cl p x scs m = Ok m' /\ Forall (fun sc => NoDup (sc_maintain sc ++ sc_drop sc)) scs.
+Proof.
+  revert m. induction scs as [|sc r IH]; intros m H; cbn in *.
+  - split; [exact H|constructor].
+  - destruct (has_dupZ _) eqn:Ed; [discriminate|]. apply has_dupZ_false in Ed.
+    destruct (lookup_claims _ _ _); [|discriminate].
+    unfold rbind in *. destruct (acc_claims _ _ _ _ _ _ _); [|discriminate].
+    apply IH in H as [H1 H2]. split; [exact H1|constructor; assumption].
+Qed.
+
+Lemma validate_decls_legacy cl p ds declared m m' :
+  validate_decls cl p ds declared m = Ok m' ->
+  validate_decls0 cl p ds m = Ok m' /\
+  NoDup (flat_map decl_sectors ds) /\ (forall n, In n (flat_map decl_sectors ds) -> ~ In n declared) /\
+  NoDup (map sc_sector (flat_map ed_claims ds)) /\
+  Forall (fun sc => NoDup (sc_maintain sc ++ sc_drop sc)) (flat_map ed_claims ds).
+Proof.
+  revert declared m. induction ds as [|d r IH]; intros declared m H;
+    cbn [validate_decls validate_decls0 flat_map] in *.
+  - splits; auto; try constructor; intros n [].
+  - destruct (_ <=? ed_deadline d); [discriminate|].
+    destruct (has_dupZ _) eqn:Ed; [discriminate|]. apply has_dupZ_false in Ed.
+    destruct (existsb _ _) eqn:Ee; [discriminate|].
+    apply rbind_ok in H as (m1 & Hm1 & H). apply acc_sclaims_legacy in Hm1 as [Hold Hids].
+    apply IH in H as (Hv & Hnd & Hdisj & Hnd2 & Hids2).
+    assert (Hfresh : forall n, In n (decl_sectors d) -> ~ In n declared).
+    { intros n Hn Hd. assert (existsb (fun n0 => mem n0 declared) (decl_sectors d) = true); [|congruence].
+      apply existsb_exists. exists n. split; [exact Hn|apply mem_In; exact Hd]. }
+    splits.
+    + unfold rbind. rewrite Hold. exact Hv.
+    + apply LNoDup_app; [apply decl_sectors_NoDup|exact Hnd|].
+      intros n H1 H2. apply (Hdisj n H2). apply in_or_app. left. exact H1.
+    + intros n Hn. apply in_app_or in Hn as [Hn|Hn]; [apply Hfresh; exact Hn|].
+      intros Hd. apply (Hdisj n Hn). apply in_or_app. right. exact Hd.
+    + rewrite map_app. apply LNoDup_app; [exact Ed|exact Hnd2|].
+      intros n H1 H2. apply in_map_iff in H1 as (sc & <- & Hsc).
+      apply in_map_iff in H2 as (sc2 & Heq & Hsc2). apply in_flat_map in Hsc2 as (d2 & Hd2 & Hsc2).
+      apply (Hdisj (sc_sector sc)).
+      * apply in_flat_map. exists d2. split; [exact Hd2|]. rewrite <- Heq. apply decl_sectors_claims. exact Hsc2.
+      * apply in_or_app. left. apply decl_sectors_claims. exact Hsc.
+    + apply Forall_app. split; assumption.
+Qed.
+
+Theorem repaired_validator_accepts_only_wf cl p ds m :
+  validate_decls cl p ds [] ∅ = Ok m -> validate_decls0 cl p ds ∅ = Ok m /\ decls_wf ds.
+Proof.
+  intros H. apply validate_decls_legacy in H as (H1 & H2 & _ & H3 & H4). split; [exact H1|]. repeat split; assumption.
+Qed.
+
 Definition sectors_cov (cl : gmap (Z * Z) claim) (now : Z) (ss : gmap (Z * Z) sector) : Prop :=
   forall q n s, ss !! (q, n) = Some s -> sector_cov cl now q n s.
 
@@ -575,12 +702,13 @@ Proof.
 Qed.
 
 Lemma extend2_cov st e c p ds st' now :
-  extend2 st e c p ds = Ok st' -> decls_wf ds -> claim_sizes_ok (claims (reg (vr st))) ->
+  extend2 st e c p ds = Ok st' -> claim_sizes_ok (claims (reg (vr st))) ->
   sectors_cov (claims (reg (vr st))) now (sectors st) ->
   vr st' = vr st /\ ctrl st' = ctrl st /\ sectors_cov (claims (reg (vr st'))) now (sectors st').
 Proof.
-  unfold extend2. intros H Hwf Hs Hc.
+  unfold extend2. intros H Hs Hc.
   apply rbind_ok in H as (spaces & Hv & H).
+  apply repaired_validator_accepts_only_wf in Hv as [Hv Hwf].
   destruct (negb (is_ctrl _ _ _)); [discriminate|].
   apply rbind_ok in H as (ss & Ha & H). injection H as <-. cbn. splits; auto.
   eapply apply_decls_cov; eauto.
@@ -622,7 +750,6 @@ Definition cop_epoch (o : cop) : Z :=
 Definition cop_wf (o : cop) : Prop :=
   match o with
   | Vr x => op_caller x <> VR
-  | Extend2 _ _ _ ds => decls_wf ds
   | _ => True
   end.
 
@@ -737,7 +864,7 @@ Proof.
     assert (Ic' : sectors_cov (claims (reg (vr st))) (Z.max now e) (sectors st)).
     { apply (sectors_cov_mono (Z.max now e) (claims (reg (vr st))) (claims (reg (vr st))) now (Z.max now e)); [apply claims_le_refl|apply Is|apply Is|lia|lia|exact Ic]. }
     destruct (extend2 st e c p ds) as [st'|k] eqn:E; cbn [fst].
-    + destruct (extend2_cov _ _ _ _ _ _ _ E Hwf (proj2 Is) Ic') as (Hv & _ & Hc).
+    + destruct (extend2_cov _ _ _ _ _ _ _ E (proj2 Is) Ic') as (Hv & _ & Hc).
       constructor; rewrite ?Hv; auto. rewrite Hv in Hc. exact Hc.
     + constructor; auto.
   - destruct I as [Ir Is Ic Iw].
@@ -769,8 +896,8 @@ Proof.
   apply IH; [exact Hr|]. apply cstep_inv; assumption.
 Qed.
 
-(* the strongest true form of "verified weight is backed by claims" *)
-Theorem verified_weight_backed_modulo_malformed_declarations w c ops :
+(* "verified weight is backed by claims", for all histories *)
+Theorem verified_weight_backed w c ops :
   world_ok w -> Forall cop_wf ops ->
   let st := crun (cinit w c) ops in
   forall p n s, sectors st !! (p, n) = Some s ->
@@ -782,8 +909,8 @@ Proof.
   intros Hw Hwf st p n s Hl. apply (ci_cov _ _ (crun_inv _ _ _ Hwf (cinit_inv w c Hw)) p n s Hl).
 Qed.
 
-(* ---------- reachable registry states (no decls_wf needed) ---------- *)
-Definition cop_caller_ok (o : cop) : Prop := match o with Vr x => op_caller x <> VR | _ => True end.
+(* ---------- reachable registry states ---------- *)
+Definition cop_caller_ok (o : cop) : Prop := cop_wf o.
 
 Lemma cstep_reg_inv st o :
   cop_caller_ok o -> world_ok (wld (vr st)) -> reg_inv (vr st) ->
